@@ -18,6 +18,8 @@ pub struct ChainCfg {
     pub sched: Vec<usize>,
     pub slots: usize,
     pub extra_storage: usize,
+    /// frame boundary (label memories of both sides reset) after this many packets, if any
+    pub reset_after: Option<usize>,
 }
 
 pub fn pick_label(rng: &mut Rng) -> Label {
@@ -77,6 +79,13 @@ pub fn run_chain(out: &mut Out, rng: &mut Rng, c: &ChainCfg, what: &str) -> usiz
             rx.ev_provision_buf(out, b);
         }
     };
+    // a frame boundary: both label memories are reset together (fragments carry no label: the train goes on)
+    let boundary = |out: &mut Out, enc: &mut Encapsulator<DefaultCrc>, rx: &mut Rx<DefaultCrc>, npkts: usize| {
+        if c.reset_after == Some(npkts) {
+            ev_cfg(out, enc, Cfg::Reset);
+            rx.ev_reset(out);
+        }
+    };
 
     if c.subst_first {
         let t = ev_encap(out, &mut enc, &small, c.fragid.wrapping_add(1), c.label, c.ptype, 64, None, None);
@@ -103,6 +112,7 @@ pub fn run_chain(out: &mut Out, rng: &mut Rng, c: &ChainCfg, what: &str) -> usiz
                 npkts += 1;
                 ctx = Some(*cx);
                 feed(out, &mut rx, &t.wire);
+                boundary(out, &mut enc, &mut rx, npkts);
                 break;
             }
             _ => {
@@ -129,6 +139,7 @@ pub fn run_chain(out: &mut Out, rng: &mut Rng, c: &ChainCfg, what: &str) -> usiz
                 npkts += 1;
                 feed(out, &mut rx, &t.wire);
                 ctx = Some(*c2);
+                boundary(out, &mut enc, &mut rx, npkts);
             }
             _ => {}
         }
@@ -168,6 +179,7 @@ pub fn run(out: &mut Out, seed: u64, thorough: bool) {
                     sched: random_sched(&mut rng, *plen, n),
                     slots: 1 + rep % 3,
                     extra_storage: if rep % 3 == 0 { 0 } else { rng.range(1, 50) },
+                    reset_after: if rep % 2 == 0 { Some(1 + rep / 2) } else { None },
                 };
                 run_chain(out, &mut rng, &cfg, "boundary");
             }
@@ -191,6 +203,7 @@ pub fn run(out: &mut Out, seed: u64, thorough: bool) {
                     sched: vec![7 + wll + first_payload, 3 + (plen - first_payload - tail), 4097],
                     slots: 2,
                     extra_storage: tail % 2,
+                    reset_after: if tail % 4 == 3 { Some(1 + tail % 2) } else { None },
                 };
                 run_chain(out, &mut rng, &cfg, "short_tail");
             }
@@ -210,6 +223,7 @@ pub fn run(out: &mut Out, seed: u64, thorough: bool) {
             sched: if i % 3 == 0 { vec![4097; 20] } else { random_sched(&mut rng, plen, 30) },
             slots: 2,
             extra_storage: i % 2,
+            reset_after: if i % 3 == 1 { Some(2) } else { None },
         };
         run_chain(out, &mut rng, &cfg, "long");
     }
@@ -234,6 +248,7 @@ pub fn run(out: &mut Out, seed: u64, thorough: bool) {
             sched: random_sched(&mut rng, plen, n),
             slots: rng.range(1, 4),
             extra_storage: rng.range(0, 3),
+            reset_after: if rng.chance(1, 4) { Some(rng.range(1, 5)) } else { None },
         };
         run_chain(out, &mut rng, &cfg, "random");
     }
@@ -250,6 +265,7 @@ pub fn run(out: &mut Out, seed: u64, thorough: bool) {
             sched: vec![20, 15, 30],
             slots: 1 + id % 4,
             extra_storage: 0,
+            reset_after: None,
         };
         run_chain(out, &mut rng, &cfg, "fragid");
         id += idstep;
